@@ -178,10 +178,13 @@ class SSHConfig:
         """
         # uncomment next line and handle global patterns (stuff before hosts) at some point
         # global_config_pattern = re.compile(r"^.*?\b(?=host)", flags=re.I | re.S)
-        # use word boundaries with a positive lookahead to get everything between the word host
-        # need to do this as whitespace/formatting is not really a thing in ssh_config file
-        # match host\s to ensure we don't pick up hostname and split things there accidentally
-        host_pattern = re.compile(r"\bhost.*?\b(?=host\s|\s+$|$)", flags=re.I | re.S)
+        # a host block starts at a line whose first word is the "host" keyword (followed by a blank
+        # or an equals sign, so that we never pick up "hostname") and runs up to the next such line
+        # (or a "match" line, those are not supported) or the end of the file; the word "host"
+        # anywhere else -- in a host name, a value or a comment -- does not split things
+        host_pattern = re.compile(
+            r"^[ \t]*host[ \t=].*?(?=^[ \t]*(?:host|match)[ \t=]|\Z)", flags=re.I | re.S | re.M
+        )
         host_entries = re.findall(pattern=host_pattern, string=self.ssh_config)
 
         discovered_hosts: Dict[str, Host] = {}
